@@ -143,3 +143,34 @@ def _(c):
     c.ensures('len(ui_trace()) == old(len(ui_trace()))', 'no_ui_request')
     c.modifies('self.last_shown_timestamp', 'trace', 'new', *_MATCHER_FIELDS)
     c.native_gen(_gen_cmd(['', '~', '~ 2', '~2', 'wl_surface ~ 1', '.commit~0', '~ x', '* ~ 3', 'wl_* ! wl_callback', '((', 'a~b~c', '5 ~ 100']))
+
+
+_CMD_WORDS = ['help', 'list', 'filter', 'breakpoint', 'matcher', 'connection', 'resume', 'quit', 'h', 'l', 'f', 'b', 'm', 'c', 'r', 'q', 'wl', 'w', 'wlf', 'wllist',
+              'wlq', 'x', '', 'co', 'br', 'he', '?', 'LIST', 'li st']
+_CMD_ARGS = _MT + ['~', '~ 3', '~3', '~ -2', '~ x', '~ 1 ~ 2', 'wl_surface ~ 2', 'all', 'A', 'B', 'a', 'zz', 'matcher', 'wl matcher', 'wlfilter', 'filter', 'xyz', '~ 99999999999999999999',
+                   '\t', '  ', 'A: ~ 1', 'é', '[', 'wl help']
+
+
+def _gen_process_command(rnd):
+    c = gen.controller_with_history(rnd)
+    r = rnd.random()
+    if r < 0.75:
+        line = rnd.choice([' ', '', '  ']) + rnd.choice(_CMD_WORDS) + rnd.choice([' ', '  ', '\t', '']) + rnd.choice(_CMD_ARGS + ['', ''])
+    else:
+        line = ''.join(rnd.choice(list('hlfbmcrqw ~*!.,:()[]=@"0123456789ax_') + ['\t', '中']) for _ in range(rnd.randint(0, 12)))      # printable text only (the quantifier of C18); escape sequences are C17
+    return (c, line)
+
+
+@contract('frontends.tui.controller.Controller.process_command')
+def _(c):
+    """C18: arbitrary text typed as a command produces output or an error line (or the resume / quit request) and never an exception"""
+    c.prop('C18', 'C10')
+    c.bounded('dispatch through callables stored in Command objects and re.split: outside the verifier. Evaluated on generated command lines '
+              '(every command word and abbreviation, GDB-style wl prefixes, matcher / count / connection arguments, random printable and non-ASCII text) '
+              'against controllers with random histories: no exception, some response, never a pause request')
+    c.types(input_line='str')
+    # (listing the connections when there are none prints nothing: an empty listing is the output)
+    c.ensures('len(out_text()) > old(len(out_text())) or len(ui_trace()) > old(len(ui_trace())) or len(self.connection_list.connections()) == 0', 'some_response')
+    c.ensures('all(ui_trace()[k] != 1 for k in range(old(len(ui_trace())), len(ui_trace())))', 'commands_never_request_pause')
+    c.modifies('trace', 'ui', 'new', 'self.display_matcher', 'self.stop_matcher', 'self.current_connection', 'self.last_shown_timestamp')
+    c.native_gen(_gen_process_command, quick=3000, thorough=30000)
